@@ -14,7 +14,7 @@ import Drivers.Util
   * srcTable  `-` or comma-separated `x<hexcontent>/<lex>/<full>`: outcome of the lexing stage and
               of the whole translation for a source with that content; outcomes are
               `ok.x<heximage>` | `errL` | `errU` | `exn`; unlisted contents give `errL`
-  * simTable  `-` or comma-separated `x<heximage>/exit.<hexword>` or `…/threw`; unlisted: `threw`
+  * simTable  `-` or comma-separated `x<heximage>/exit.<hexword>[/<limit>]` or `…/threw`; unlisted: `threw`
   * probe     `-` or comma-separated `x<hexname>`: the names whose content is printed afterwards
 
   Output: `<status> <stderr 0|1> <stdout none|usage|text|program> <fs'>` with fs' in the `fs` format
@@ -72,15 +72,20 @@ def handle (line : String) : String :=
       match srcT.find? (fun e => e.1 = src) with | some e => e.2.1 | none => .error true
     let fullOf (src : Bytes) : Core Bytes :=
       match srcT.find? (fun e => e.1 = src) with | some e => e.2.2 | none => .error true
-    let simT : List (Bytes × SimOutcome) := (parseList simS).filterMap fun e =>
+    -- `x<img>/exit.<v>` holds for every cycle limit; `x<img>/exit.<v>/<n>` is the outcome under `--max-cycles n` only
+    let simT : List (Bytes × Option Nat × SimOutcome) := (parseList simS).filterMap fun e =>
+      let oc (o : String) : SimOutcome := if o.startsWith "exit." then .exited (word (o.drop 5).toString) else .threw
       match e.splitOn "/" with
-      | [c, o] =>
-        some (hx c, if o.startsWith "exit." then .exited (word (o.drop 5).toString) else .threw)
+      | [c, o] => some (hx c, none, oc o)
+      | [c, o, n] => some (hx c, some n.toNat!, oc o)
       | _ => none
     let core : AsmCore := { lex := fun s => unitOutcome (lexOf s), assemble := fullOf }
     let xc : XcmpCore := { compile := fun a _ s => if a = .tokens then lexOf s else fullOf s }
     let sim : SimCore :=
-      { run := fun _ _ img => match simT.find? (fun e => e.1 = img) with | some e => e.2 | none => .threw }
+      { run := fun _ mc img =>
+          match simT.find? (fun e => e.1 = img ∧ e.2.1 = some mc) with
+          | some e => e.2.2
+          | none => match simT.find? (fun e => e.1 = img ∧ e.2.1 = none) with | some e => e.2.2 | none => .threw }
     let pinned := variant = "pinned"
     let r : Option Result :=
       if tool = "hexasm" then some (if pinned then Pinned.hexasmMain core argv fs else hexasmMain core argv fs)
